@@ -10,7 +10,7 @@ import (
 func init() {
 	Registry["C25"] = RuleDef{Module: ".", Run: runC25,
 		Technique:   "guard rule (recycled-check dominates every use, re-evaluated per retry iteration), once-rule on the hand-back, must-precede rules on the cleaning of a returned wire, provenance rule on shared slots",
-		Explanation: "Decides (R25a) that every use of a dedicated client's wire is dominated by the nil arm of its recycled-check, taken inside the same retry iteration as the use (so a release during a back-off is noticed before the retry is sent), and that the cluster dedicated client obtains its wire only through acquire, which refuses a released client; (R25b) that the wire is handed back only by the caller that wins the mark compare-and-swap (single) or under `!mark` within the critical section that sets it (cluster); (R25c) that mux.Store resets the Pub/Sub hooks, cleans subscriptions and - when an invalidation callback had been installed, as observed before the hooks were reset - switches tracking off, all before the wire is stored back; that CleanSubscriptions unsubscribes everything and discards an open transaction on a pipelined wire, or closes a wire with a pending blocking command; (R25d) that wires taken from a pool are never installed into the multiplexer's shared slots.",
+		Explanation: "Decides (R25a) that every use of a dedicated client's wire is dominated by the nil arm of its recycled-check, taken inside the same retry iteration as the use (so a release during a back-off is noticed before the retry is sent), and that the cluster dedicated client obtains its wire only through acquire, which refuses a released client; (R25b) that the wire is handed back only by the caller that wins the mark compare-and-swap (single) or under `!mark` within the critical section that sets it (cluster); (R25c) that mux.Store resets the Pub/Sub hooks, cleans subscriptions and - when an invalidation callback had been installed, as observed before the hooks were reset - switches tracking off, all before the wire is stored back; that CleanSubscriptions unsubscribes everything and discards an open transaction on a pipelined wire, or closes a wire with a pending blocking command; (R25d) that wires taken from a pool are never installed into the multiplexer's shared slots. (R25e) every attempt of a dedicated client's call, retries included, passes check() before it uses the wire.",
 		NotDecided:  "interleaving with concurrent traffic (follows from the pool's exclusivity, C24, and R25d; not separately shown)."}
 	Registry["C27"] = RuleDef{Module: ".", Run: runC27,
 		Technique:   "sibling agreement of the three invalidation sinks (guard rule), unconditional-dispatch rule for pushes, must-pass rules on teardown and on the release of a tracking connection",
@@ -19,6 +19,7 @@ func init() {
 }
 
 func runC25(r *Report) {
+	recheckBeforeRetryRule(r, "R25e")
 	p := r.P
 	const DS = "rueidis.(*dedicatedSingleClient)."
 	// R25a
@@ -345,4 +346,38 @@ func runC27(r *Report) {
 	}
 	storeCleaningRules(r, "R27c")
 	_ = p
+}
+
+// recheckBeforeRetryRule: a dedicated client may be released by another goroutine while one of its
+// calls waits in the retry back-off; the wire is then back in the pool. Every attempt - not only
+// the first - therefore re-validates the client (check()) before it touches the wire: no path leads
+// from one use of the wire to the next without passing check().
+func recheckBeforeRetryRule(r *Report, rule string) {
+	P := "rueidis.(*dedicatedSingleClient)."
+	n := 0
+	for _, name := range []string{"Do", "DoMulti", "Receive"} {
+		fn := r.FnAnchor(rule, P+name)
+		if fn == nil {
+			continue
+		}
+		isCheck := func(s Site) bool { _, ok := CallTo(s.Instr, P+"check"); return ok }
+		for _, s := range Sites(fn, func(in ssa.Instruction) bool {
+			c, ok := in.(*ssa.Call)
+			return ok && c.Call.IsInvoke() && strings.HasPrefix(CalleeName(c), "iface:rueidis.wire.") && strings.HasSuffix(DescDeep(c.Call.Value), ".wire")
+		}) {
+			n++
+			first, _ := MustPassFromEntry(fn, func(in ssa.Instruction) bool { return in == s.Instr })
+			_ = first
+			again, _ := Reaches(s, func(w Site) bool { return w.Instr == s.Instr }, isCheck)
+			// and the first use is behind a check as well
+			guarded := false
+			for _, cs := range CallSites(fn, P+"check") {
+				if Dominates(cs, s) {
+					guarded = true
+				}
+			}
+			r.ObSite(rule, s, "wire-used-only-after-revalidation", guarded && !again, "every attempt (the retries too) re-validates the dedicated client before using its wire; a client released during the back-off no longer owns the wire")
+		}
+	}
+	r.Anchor(rule, "dedicated client wire uses (>= 3)", n >= 3)
 }
